@@ -20,6 +20,8 @@ func init() {
 	extend("C15", ruleNoCopyFastPaths("C15.no-copy-fast-paths"))
 	extend("C14", ruleTruncateKeepsCursor("C14.truncate-keeps-cursor"), ruleTruncatePreservesContent("C14.truncate-preserves-content"))
 	extend("C18", ruleSigningTimeUnadjusted("C18.signing-time-unadjusted"))
+	extend("C13", ruleNoSQLReplaceByParameter("C13.no-sql-replace-by-parameter"), ruleRootRenameRefused("C13.root-rename-refused"))
+	extend("C12", ruleRootRenameRefused("C12.root-rename-refused"))
 	extend("C03", ruleBlockSizeFitsRecord("C03.block-size-fits-record"))
 	extend("C12", ruleSanitiserPrefixOnly("C12.sanitiser-prefix-only"))
 	extend("C17", ruleSanitiserPrefixOnly("C17.sanitiser-prefix-only"), ruleNoneNeverFails("C17.none-never-fails"))
@@ -509,6 +511,120 @@ func ruleTruncatePreservesContent(rule string) func(*Ctx) {
 		}
 		if n < 2 {
 			c.unresolved("only %d buffer truncations found in (*File).Truncate", n)
+		}
+	}
+}
+
+// ruleNoSQLReplaceByParameter: `replace(col, ?, '')` removes EVERY occurrence of the bound string, not a prefix: used
+// to strip the parent path in the direct-children listing it also eats a later path component that repeats the
+// parent's (`/a/b/a/c` under `/a` loses two components and is listed as a direct child). Positional stripping
+// (`substr(col, length(?) + 1)`) is the only form accepted.
+func ruleNoSQLReplaceByParameter(rule string) func(*Ctx) {
+	return func(c *Ctx) {
+		c.floor(rule, 1, "raw SQL statements in pkg/persisters")
+		n, badN := 0, 0
+		for _, f := range c.Funcs {
+			if f.RelPkg() != "pkg/persisters" {
+				continue
+			}
+			// statements may be built in a local first: look at every Sprintf/constant that flows into queries.Raw
+			for _, cs := range f.calls {
+				fn, ok := cs.Callee.(*types.Func)
+				if !ok || fn.Name() != "Raw" || fn.Pkg() == nil || fn.Pkg().Path() != queriesPath || len(cs.Call.Args) == 0 {
+					continue
+				}
+				n++
+				var sb strings.Builder
+				for _, p := range flattenSQL(f, cs.Call.Args[0], 0) {
+					if p.expr != nil {
+						sb.WriteString("<x>")
+					} else {
+						sb.WriteString(strings.ToLower(p.lit))
+					}
+				}
+				text := strings.Join(strings.Fields(sb.String()), " ")
+				idx := 0
+				hit := false
+				for {
+					i := strings.Index(text[idx:], "replace(")
+					if i < 0 {
+						break
+					}
+					start := idx + i + len("replace(")
+					// second argument at depth 0
+					depth, arg, cur := 0, 0, ""
+					var args []string
+					for j := start; j < len(text); j++ {
+						ch := text[j]
+						if ch == '(' {
+							depth++
+						}
+						if ch == ')' {
+							if depth == 0 {
+								args = append(args, strings.TrimSpace(cur))
+								break
+							}
+							depth--
+						}
+						if ch == ',' && depth == 0 {
+							args = append(args, strings.TrimSpace(cur))
+							cur = ""
+							arg++
+							continue
+						}
+						cur += string(ch)
+					}
+					if len(args) >= 2 && args[1] == "?" {
+						hit = true
+					}
+					idx = start
+				}
+				if hit {
+					badN++
+					c.bad(rule, f, fmt.Sprintf("sql replace#%d", badN), cs.Call.Pos(), "the statement strips a bound string with replace(col, ?, ..): every occurrence is removed, not only the leading one, so a descendant whose path repeats the parent's last component (/a/b/a/c under /a) is counted at the wrong depth and shows up in the parent's listing")
+				}
+			}
+		}
+		if n == 0 {
+			c.unresolved("no raw SQL statement found in pkg/persisters")
+		}
+		if badN == 0 {
+			c.ok(rule, nil, "no replace-by-parameter in SQL", token.NoPos, true, "%d raw statements inspected, none strips a bound string with replace()", n)
+		}
+	}
+}
+
+// ruleRootRenameRefused: Rename refuses the root under every spelling: the move is reachable only across the false
+// edge of pathext.IsRoot(oldname, ..) (the comparison with the stored root spelling alone misses "." and "./").
+func ruleRootRenameRefused(rule string) func(*Ctx) {
+	return func(c *Ctx) {
+		c.floor(rule, 1, "the move call in STFS.Rename")
+		f := c.fn("pkg/fs", "(*STFS).Rename")
+		move := c.fn("pkg/operations", "(*Operations).Move")
+		isRoot := c.fn("internal/pathext", "IsRoot")
+		if f == nil || move == nil || isRoot == nil {
+			return
+		}
+		info := f.Pkg.TypesInfo
+		oldV := paramVar(f, "oldname")
+		fl := c.flow(f)
+		n := 0
+		for _, cs := range f.calls {
+			if cs.Target != move {
+				continue
+			}
+			n++
+			okk, reach := fl.guardedBy(cs.Call, func(ft Fact) bool {
+				call, ok := ast.Unparen(ft.E).(*ast.CallExpr)
+				return ok && !ft.Pos && calleeObj(info, call) == types.Object(isRoot.Obj) && len(call.Args) > 0 && oldV != nil && usesObj(info, call.Args[0], oldV)
+			}, nil)
+			if !reach {
+				continue
+			}
+			c.verdictIf(okk, rule, f, fmt.Sprintf("Move#%d root refused", n), cs.Call.Pos(), "the move happens only when oldname is not a spelling of the root", "Rename reaches Move without having tested pathext.IsRoot(oldname): Rename(\".\", x) is not recognised as renaming the root (the stored root is spelled \"/\"), the root is moved and \"/\" stops resolving")
+		}
+		if n == 0 {
+			c.unresolved("STFS.Rename no longer calls Operations.Move")
 		}
 	}
 }
